@@ -31,11 +31,29 @@ def run(ck, models, tier, ws):
                 arms_reset += 1
                 break
     in_expansion = arms_total > 0 and arms_reset == arms_total
-    # (b) reset in the library install entry
+    roots = [p for p in tm.install_roots() if any("CallCountVerifier" in i["s"] for i in tm.facts.fns[p]["inputs"])]
+    n_paths = install_resets_counter(ck, tm, "R7.1", in_expansion)
+    if in_expansion:
+        ck.ob("R7.1", "reset-in-expansion", tm.target, True, "all %d `times` arms reset their static before building the verifier" % arms_total)
+    ck.floor("R7.1", "install-paths-with-a-counter", n_paths, 1)
+    # R7.2 other writers in the library
+    writers = []
+    for b in tm.facts.fn_bodies():
+        for name, foreign, local, t in tm.facts.callees_of(b):
+            if "atomic::Atomic" in name and name.split("::")[-1] in ("store", "swap", "fetch_add", "fetch_sub", "compare_exchange", "fetch_update"):
+                writers.append((b["path"], name))
+    allowed = set(roots)
+    bad = [w for w in writers if w[0] not in allowed]
+    ck.ob("R7.2", "no-other-writer-in-library", tm.target, not bad, "atomic writes in the library: %s" % [(short(a), short(b)) for a, b in writers])
+
+
+def install_resets_counter(ck, tm, rule, in_expansion=False):
+    """Library part of R7.1 (also C05 R5.7): every path of an installation entry point that takes a verifier resets the
+    verifier's counter before its first effect."""
     n_paths = 0
     ok_all = True
     roots = [p for p in tm.install_roots() if any("CallCountVerifier" in i["s"] for i in tm.facts.fns[p]["inputs"])]
-    ck.floor("R7.1", "install-entry-points-taking-a-verifier", len(roots), 1)
+    ck.floor(rule, "install-entry-points-taking-a-verifier", len(roots), 1)
     for p in roots:
         for f in tm.machines[(p, None)].entered:
             ck.analysed_fn(tm.target, f)
@@ -72,21 +90,10 @@ def run(ck, models, tier, ws):
                     derived = True
             ok = bool(good) and derived
             ok_all = ok_all and ok
-            ck.ob("R7.1", "%s/%s" % (short(p), "counter-reset-before-install" if ok else "counter-never-reset"), tm.target, ok,
+            ck.ob(rule, "%s/%s" % (short(p), "counter-reset-before-install" if ok else "counter-never-reset"), tm.target, ok,
                   "%s: path installing a fake whose verifier %s: %d reset(s) of the verifier's counter before the first effect%s" % (
                       short(p), "carries a counter" if has_counter else "may carry a counter", len(good),
                       "" if ok else ". The counter is a static created once per expansion site and keeps the calls absorbed by earlier "
                       "installations built by the same line of source: with `times: 1`, the second lifetime that runs the same set-up code "
                       "panics 'called more times than expected' on its first call"), where(eff[0]) if eff else None)
-    if in_expansion:
-        ck.ob("R7.1", "reset-in-expansion", tm.target, True, "all %d `times` arms reset their static before building the verifier" % arms_total)
-    ck.floor("R7.1", "install-paths-with-a-counter", n_paths, 1)
-    # R7.2 other writers in the library
-    writers = []
-    for b in tm.facts.fn_bodies():
-        for name, foreign, local, t in tm.facts.callees_of(b):
-            if "atomic::Atomic" in name and name.split("::")[-1] in ("store", "swap", "fetch_add", "fetch_sub", "compare_exchange", "fetch_update"):
-                writers.append((b["path"], name))
-    allowed = set(roots)
-    bad = [w for w in writers if w[0] not in allowed]
-    ck.ob("R7.2", "no-other-writer-in-library", tm.target, not bad, "atomic writes in the library: %s" % [(short(a), short(b)) for a, b in writers])
+    return n_paths
